@@ -68,8 +68,12 @@ Fixpoint conforming (pending : list ack) (h : list publish_resp) : bool :=
   end.
 
 (* --- republish (sendRepublishRequests): the notification goes to the application, sub.lastSeq/nextSeq advance, and
-       NOTHING is appended to pendingAcks ------------------------------------------------------------------------- *)
-Definition republish_step (pending : list ack) (sub seq : nat) : list ack * option ack := (pending, Some (sub, seq)).
+       (before the fix) NOTHING was appended to pendingAcks ------------------------------------------------------------ *)
+Definition republish_step_before_fix (pending : list ack) (sub seq : nat) : list ack * option ack := (pending, Some (sub, seq)).
+
+(* since the fix: the republished message (it always carries data) is appended to pendingAcks like a published one *)
+Definition republish_step (pending : list ack) (sub seq : nat) : list ack * option ack :=
+  (pending ++ [(sub, seq)], Some (sub, seq)).
 
 (* --- reconnect bookkeeping --------------------------------------------------------------------------------------- *)
 
@@ -117,16 +121,28 @@ Definition active_one (transfer_failed : bool) (e : sub_env) : nat :=
   if transfer_failed || negb (se_transfer_ok e) then (if snd (recreate e) then 1 else 0)
   else 1 + (if se_republish_ok e then 0 else if snd (recreate e) then 1 else 0).
 
-(* restoreSession -> restoreSubscriptions with subsToRepublish = subsToRecreate = nil: nothing is republished or
-   recreated and activeSubs stays 0 *)
-Definition reconnect_subs (p : path) (es : list sub_env) : list (nat * fate) * nat :=
+(* restoreSession -> restoreSubscriptions.  Before the fix both lists were empty on this path: nothing was republished
+   or recreated and activeSubs stayed 0.  Since the fix subsToRepublish = all subscriptions of the client: each one is
+   republished, or recreated when the republish fails. *)
+Definition reconnect_subs_before_fix (p : path) (es : list sub_env) : list (nat * fate) * nat :=
   match p with
   | SessionKept => (map (fun e => (se_id e, Untouched)) es, 0)
   | SessionLost tf => (fst (restore_all tf es), fold_right (fun e n => active_one tf e + n) 0 es)
   end.
 
+Definition kept_env (e : sub_env) : sub_env :=
+  {| se_id := se_id e; se_items := se_items e; se_transfer_ok := true; se_republish_ok := se_republish_ok e;
+     se_create_ok := se_create_ok e; se_items_ok := se_items_ok e |}.
+
+Definition reconnect_subs (p : path) (es : list sub_env) : list (nat * fate) * nat :=
+  match p with
+  | SessionKept => (fst (restore_all false (map kept_env es)), fold_right (fun e n => active_one false (kept_env e) + n) 0 es)
+  | SessionLost tf => (fst (restore_all tf es), fold_right (fun e n => active_one tf e + n) 0 es)
+  end.
+
 (* `case activeSubs > 0: c.resumeSubscriptions(ctx)` — otherwise the publish loop stays paused *)
 Definition publishing_resumed (p : path) (es : list sub_env) : bool := 0 <? snd (reconnect_subs p es).
+Definition publishing_resumed_before_fix (p : path) (es : list sub_env) : bool := 0 <? snd (reconnect_subs_before_fix p es).
 
 (* --- the monitored items of a subscription across consecutive reconnects ------------------------------------------ *)
 
@@ -149,3 +165,27 @@ Fixpoint rounds_items (k : nat) (p : path) (e : sub_env) (groups : list nat) : l
   | S k' => let '(req, g1) := round_items p e groups in
             let '(reqs, gk) := rounds_items k' p e g1 in (req :: reqs, gk)
   end.
+
+(* --- everything the client receives: publish responses and republished notifications ------------------------------ *)
+Inductive event := EPublish (r : publish_resp) | ERepublish (sub seq : nat).
+
+Definition ev_step_gen (fixed : bool) (pending : list ack) (e : event) : list ack * option ack :=
+  match e with
+  | EPublish r => publish_step pending r
+  | ERepublish s q => if fixed then republish_step pending s q else republish_step_before_fix pending s q
+  end.
+Definition ev_step := ev_step_gen true.
+
+(* acknowledgement lists sent after each event, and the notifications handed to the application *)
+Fixpoint ev_requests_gen (fixed : bool) (pending : list ack) (h : list event) : list (list ack) :=
+  match h with [] => [pending] | e :: rest => pending :: ev_requests_gen fixed (fst (ev_step_gen fixed pending e)) rest end.
+Fixpoint ev_delivered_gen (fixed : bool) (pending : list ack) (h : list event) : list ack :=
+  match h with
+  | [] => []
+  | e :: rest => match snd (ev_step_gen fixed pending e) with
+                 | Some a => a :: ev_delivered_gen fixed (fst (ev_step_gen fixed pending e)) rest
+                 | None => ev_delivered_gen fixed (fst (ev_step_gen fixed pending e)) rest
+                 end
+  end.
+Definition ev_requests := ev_requests_gen true.
+Definition ev_delivered := ev_delivered_gen true.
